@@ -76,6 +76,12 @@ func NewPeer(fd net.Conn) IPeer {
 
 // DoHandshake do handshake when connection
 func (p *Peer) DoHandshake(prv *ecdsa.PrivateKey, nodeID *NodeID) (err error) {
+	// a remote that stops sending must not hold the handshake goroutine and its buffer forever;
+	// afterwards readConn / WriteMsg set their own deadline for every frame
+	if err = p.conn.SetDeadline(time.Now().Add(frameReadTimeout)); err != nil {
+		return err
+	}
+	defer p.conn.SetDeadline(time.Time{})
 	// as server
 	if nodeID == nil {
 		s, err := serverEncHandshake(p.conn, prv, nil)
